@@ -983,6 +983,18 @@ def gen_replies(repo):
             tag, low, tag, keep, tag, dele, tag, repl)
     for k in ('NOMAIL_MINLEN', 'NOMAIL_CODELEN', 'NOMAIL_COPY', 'NOMAIL_TERM', 'NOMAIL_BUF', 'NOMAIL_REST'):
         out += 'Definition %s : nat := %d.\n' % (k, sc[k])
+    # names of the functions whose tables the session-level models look up, and the limit of check_max_bad_commands()
+    for fn in ('smtp_quit', 'check_max_bad_commands', 'wait_for_quit', 'smtploop', 'tls_out', 'tls_err', 'smtp_data'):
+        out += 'Definition FN_%s : list N := %s.\n' % (fn, coq_str(fn))
+    sy = clean(read(repo, 'qsmtpd/syntax.c'))
+    mb = re.findall(r'#define\s+MAXBADCMDS\s+(\d+)', sy)
+    if len(mb) != 1 or not re.search(r'if\s*\(\s*badcmds\+\+\s*<=\s*MAXBADCMDS\s*\)\s*return\s*;', sy):
+        raise TranslateError('qsmtpd/syntax.c: MAXBADCMDS / the test `if (badcmds++ <= MAXBADCMDS) return;` not found')
+    wq = re.search(r'\nwait_for_quit\s*\(void\)\s*\{(.*?)\n\}', sy, flags=re.S)
+    if not wq or not re.search(r'\(void\)\s*net_read\(1\)\s*;\s*if\s*\(\s*!strncasecmp\(linein\.s,\s*quitcmd,\s*strlen\(quitcmd\)\)\)\s*\{\s*if\s*\(\s*!linein\.s\[strlen\(quitcmd\)\]\s*\)\s*'
+                               r'smtp_quit\(\)\s*;\s*\}\s*check_max_bad_commands\(\)\s*;\s*\(void\)\s*netwrite\(', wq.group(1)):
+        raise TranslateError('qsmtpd/syntax.c: wait_for_quit() no longer has the form the model Model/ReplySites.v:wait_for_quit was written from')
+    out += 'Definition MAXBADCMDS : nat := %s.\n' % mb[0]
     for k, v in multiline_facts(repo).items():
         out += 'Definition %s : nat := %d.\n' % (k, v)
     if a['notes']:
